@@ -605,6 +605,22 @@ theorem rpg_monitor_accepts_model (k : RKind) (hk : k.isPaged = true) (keys : Li
   rcases required_lists_present_paged k hk (fun u => .str u) keys ps c with ⟨_, h⟩ | ⟨items, h, _, _⟩ <;>
     simp [rpgMonitor, modelPg, h]
 
+/-- what the driver's `r.pg.list` arm observes of the model for ANY listed registry (paged or whole) -/
+def modelReg (k : RKind) (keys : List Bytes) (ps : Nat) (c : Cursor) : PgObs :=
+  match (listReg k (fun u => .str u) keys ps c).1 with
+  | .errorInstead => .fine
+  | .sent (.arr _) => .fine
+  | .sent _ => .null
+
+theorem rreg_monitor_accepts_model (k : RKind) (hk : k.isListed = true) (keys : List Bytes) (ps : Nat) (c : Cursor) :
+    rpgMonitor k keys ps c (modelReg k keys ps c) = none := by
+  by_cases hp : k.isPaged = true
+  · have : modelReg k keys ps c = modelPg k keys ps c := by simp [modelReg, modelPg, listReg, hp]
+    rw [this]; exact rpg_monitor_accepts_model k hp keys ps c
+  · have hr : k = .listRoots := by cases k <;> simp_all [RKind.isListed, RKind.isPaged]
+    subst hr
+    simp [rpgMonitor, modelReg, listReg, RKind.isPaged, L.listAll_sent]
+
 /-! ## the byte stream of an io connection -/
 
 def modelNd (l : List (Bytes × Bytes)) : NdObs := .read (readStream (joinWs l)).1 (readStream (joinWs l)).2
@@ -666,6 +682,49 @@ def modelIrm (j : JVal) : IrmObs :=
 theorem rirm_monitor_accepts_model (j : JVal) : rirmMonitor j (modelIrm j) = none := by
   unfold rirmMonitor modelIrm
   cases h : decodeInputRequests j <;> simp [h]
+
+/-! ## the `CompleteReference` codec -/
+
+def modelRefRt (r : CRef) : RefRtObs :=
+  match encodeRef r with
+  | .error _ => .refused
+  | .ok v => .written v (match decodeRef v with | .ok r' => some r' | .error _ => none)
+
+def modelRefDec (v : JVal) : RefDecObs :=
+  match decodeRef v with
+  | .error _ => .rejected
+  | .ok r => .accepted r (match encodeRef r with | .ok w => some w | .error _ => none)
+
+theorem encodeRef_ok_of_check (r : CRef) (h : refCheck r = .ok ()) : ∃ v, encodeRef r = .ok v := by
+  simp [encodeRef, h]
+
+theorem refRt_monitor_accepts_model (r : CRef) : refRtMonitor r (modelRefRt r) = none := by
+  unfold modelRefRt
+  cases he : encodeRef r with
+  | error e =>
+    have : refCheck r ≠ .ok () := by
+      intro hc; obtain ⟨v, hv⟩ := encodeRef_ok_of_check r hc; rw [hv] at he; cases he
+    simp [refRtMonitor, this]
+  | ok v =>
+    have hc : refCheck r = .ok () := by
+      unfold encodeRef at he
+      cases hc : refCheck r with
+      | error e => simp [hc] at he
+      | ok _ => rfl
+    simp [refRtMonitor, hc, ref_roundtrip r v he]
+
+theorem refDec_monitor_accepts_model (v : JVal) : refDecMonitor (modelRefDec v) = none := by
+  unfold modelRefDec
+  cases hd : decodeRef v with
+  | error e => rfl
+  | ok r =>
+    obtain ⟨w, hw, _⟩ := ref_decode_validates v r hd
+    have hc : refCheck r = .ok () := by
+      unfold encodeRef at hw
+      cases hc : refCheck r with
+      | error e => simp [hc] at hw
+      | ok _ => rfl
+    simp [refDecMonitor, hc, hw, sameJ_refl]
 
 end Mon
 end Wire
